@@ -102,6 +102,12 @@ theorem step_frame (s s' : St) (e : Ev) (hs : step s e = some s') (he : e.isCall
     split at hs
     · simp at hs; subst hs; exact ⟨rfl, rfl, rfl⟩
     · simp at hs
+  | cancelroot =>
+    simp only [step] at hs
+    split at hs
+    · simp at hs; subst hs
+      exact ⟨(sameBut_cancelAll _).cfg, (sameBut_cancelAll _).calls, (sameBut_cancelAll _).refs⟩
+    · simp at hs
 
 /-- calls that are not part of the `KeyedRefCount` reference API do not touch the reference table -/
 theorem refs_execOp (s : St) (op : Op) (h : op.allowed false = true) : (execOp s op).1.refs = s.refs := by
@@ -115,13 +121,21 @@ theorem refs_execOp (s : St) (op : Op) (h : op.allowed false = true) : (execOp s
   | getKey k => simp only [execOp]; split <;> rfl
   | getKeys => rfl
   | getKeysWithData => rfl
-  | resetRoutine k => exact (tstep_resetKey s k).refs
-  | restartRoutine k => exact (touch_restartKey s k).frame.refs
-  | resetAll =>
+  | resetRoutine k cs =>
+    simp only [execOp]
+    split
+    · exact (tstep_resetKey s k).refs
+    · exact rfl
+  | restartRoutine k cs =>
+    simp only [execOp]
+    split
+    · exact (touch_restartKey s k).frame.refs
+    · exact rfl
+  | resetAll cs =>
     simp only [execOp]
     rw [foldl_fst resetAllStep (fun s k => (resetKey s k).1) (fun _ _ => rfl)]
     exact (foldl_tstep _ tstep_resetKey _ _).refs
-  | restartAll =>
+  | restartAll cs =>
     simp only [execOp]
     rw [foldl_fst restartAllStep (fun s k => (restartKey s k).1) (fun _ _ => rfl)]
     exact (foldl_tstep _ (fun s k => (touch_restartKey s k).quiet.tstep) _ _).refs
